@@ -4,6 +4,19 @@ import importlib, json, os, sys
 HERE = os.path.dirname(os.path.abspath(__file__))
 sys.path.insert(0, HERE)
 props = [json.loads(l) for l in open(os.path.join(HERE, "properties.jsonl"))]
+from engine.core import Repo  # noqa: E402
+
+REPO = Repo.from_disk("/repo")
+
+
+def rule_list(m):
+    """the rules the module actually evaluates, with the number of obligations on the current tree"""
+    res = m.check(REPO)
+    out = []
+    for rid, r in res.rules.items():
+        out.append(f"{rid} [{len(r['keys'])}]: {r['description']}")
+    return "\nRules evaluated on every run (id [obligations on the pinned tree]: statement): " + " | ".join(out)
+
 checks, na = [], []
 for p in props:
     pid = p["id"]
@@ -24,7 +37,7 @@ for p in props:
         "engine": "unyt-static",
         "level_claimed": {
             "category": "other",
-            "text": m.LEVEL_TEXT.strip(),
+            "text": m.LEVEL_TEXT.strip() + rule_list(m),
             "design_ref": f"DESIGN.md section 2, {pid}",
         },
         "level_note": m.LEVEL_NOTE.strip(),
